@@ -28,7 +28,7 @@ PYTHONPATH=$wt timeout 900 /venv/bin/python "$wt/_seed/demo.py" >> "$log" 2>&1; 
 echo "demo with patch: rc=$rc1" | tee -a "$log"
 if [ "${SKIP_SUITE:-0}" != "1" ]; then
   rm -rf "$wt/_seed"
-  PYTHONPATH=$wt timeout 5400 /venv/bin/python -m pytest -q -p no:cacheprovider --timeout=900 --continue-on-collection-errors > "$dst/suite.log" 2>&1
+  PYTHONPATH=$wt timeout 10800 /venv/bin/python -m pytest -q -p no:cacheprovider --timeout=1800 --continue-on-collection-errors > "$dst/suite.log" 2>&1
   tail -1 "$dst/suite.log" | tee -a "$log"
   grep "^FAILED" "$dst/suite.log" | tee -a "$log"
   tail -400 "$dst/suite.log" > "$dst/suite.tail"; mv "$dst/suite.tail" "$dst/suite.log"
